@@ -11,6 +11,7 @@ OrigAt(items, n) == [i \in items |-> n]
 O1a == OrigAt({"v1"}, "n1")
 O2a == OrigAt({"v1", "t1"}, "n1")
 O2b == ("v1" :> "n1") @@ ("t1" :> "n2")
+O2c == ("v1" :> "n1") @@ ("t1" :> "n4")
 OCa == OrigAt({"v1", "v2"}, "n1")
 \* with n3 adversarial the origin stays honest
 =============================================================================
